@@ -68,7 +68,7 @@ def one(m, suite=False, all_checks=False):
                 shutil.copytree(s, os.path.join(root, x))
             elif os.path.exists(s):
                 shutil.copy2(s, os.path.join(root, x))
-        if m["kind"] == "seeded":
+        if m["kind"] == "seeded" or m.get("patch"):
             subprocess.run(["git", "init", "-q"], cwd=root)
             r = subprocess.run(["git", "apply", "--whitespace=nowarn", m["patch"]], cwd=root, stdout=subprocess.PIPE, stderr=subprocess.STDOUT, text=True)
             if r.returncode != 0:
@@ -121,8 +121,14 @@ def main():
     only = args[args.index("--only") + 1] if "--only" in args else None
     jobs = int(args[args.index("--jobs") + 1]) if "--jobs" in args else 8
     items = load("mutants") + load("benign")
+    bp = os.path.join(HERE, "benign_patches")
+    if os.path.isdir(bp):
+        items += [{"name": "benign_patches/" + fn, "kind": "benign", "patch": os.path.join(bp, fn), "expect": []} for fn in sorted(os.listdir(bp)) if fn.endswith(".diff")]
     if "--seeded" in args:
         items = load_seeded()
+    if "--benign-dir" in args:
+        bd = os.path.abspath(args[args.index("--benign-dir") + 1])
+        items = [{"name": os.path.basename(bd) + "/" + fn, "kind": "benign", "patch": os.path.join(bd, fn), "expect": []} for fn in sorted(os.listdir(bd)) if fn.startswith("refactor_") and fn.endswith(".diff")]
     if only:
         items = [m for m in items if only in m["name"]]
     bad = 0
